@@ -12,6 +12,7 @@ import Gv.Proofs.NexusOutcome
 import Gv.Proofs.NexusNoHang
 import Gv.Proofs.ClustalNoHang
 import Gv.Proofs.PhylipNoHang
+import Gv.Proofs.ClustalPos
 import Gv.Proofs.PartitionOutcome
 /-!
 C03 — parsers terminate on every input with an error or a well-formed result.
@@ -557,5 +558,30 @@ theorem phylip_outcome_fixed (o : POpts) (bs : List Byte) :
   | exit => trivial
   | panic => exact absurd hp h2
   | hang => exact absurd hp h3
+
+/-- **Clustal with the row-index repair** (commit e77b337): the full C03 outcome statement for all byte strings
+and options — an explicit error, an exit with a message (lone `\r`), or a well-formed alignment (non-empty, at
+least one column since every sequence token of the lexer is non-empty, rectangular, distinct names); never a
+panic, never a hang. -/
+theorem clustal_outcome_fixed (o : POpts) (bs : List Byte) : Good (Clustal.parse true o bs) := by
+  have h1 := clustal_outcome_fixed_partial o bs
+  cases hp : Clustal.parse true o bs with
+  | ok a =>
+    rw [hp] at h1
+    obtain ⟨hne, hrect, hdist⟩ := h1
+    have hpos := Gv.Proofs.ClustalPos.parse_pos true o bs a hp
+    simp only [Good]
+    unfold Spec.Fmt.wellFormed
+    have e1 : a.rows.isEmpty = false := by
+      cases hr : a.rows with
+      | nil => exact absurd hr hne
+      | cons _ _ => rfl
+    have e3 : (a.rows.all fun r => (r.2.length : Int) == a.length) = true := by
+      simp only [List.all_eq_true, beq_iff_eq]; exact hrect
+    simp [e1, hpos, e3, hdist]
+  | error => trivial
+  | exit => trivial
+  | panic => rw [hp] at h1; exact h1
+  | hang => rw [hp] at h1; exact h1
 
 end Gv.Props.C03
